@@ -324,6 +324,7 @@ def gen_c09(engine, mode):
         rng = _rng(seed, 90 + len(mode))
         asyncish = engine == "async"
         mg = MachineGen(rng, prof(n_states=(3, 8), max_depth=rng.choice((2, 3)), p_invoke=0.5,
+                                  p_shared_invoke_id=(0.5 if rng.random() < 0.4 else 0.0),
                                   svc_kinds=(("coro", "coro", "sync") if asyncish else ("sync",)),
                                   events=3, p_trans=0.5, p_history=0.05, p_parallel=0.12, p_always=0.05, p_raise=0.05,
                                   p_slow_act=0.1, p_async_act=(0.1 if asyncish else 0.0), root_final=False, p_final=0.05,
@@ -427,7 +428,11 @@ register(
               ("hist_parallel_sync", 2, gen_c11("sync", 73, hist_parallel=True, p_parallel=0.4)),
               ("hist_parallel_async", 1, gen_c11("async", 74, hist_parallel=True, p_parallel=0.4)),
               ("hist_restore_sync", 2, gen_c11("sync", 75, with_restore=True)),
-              ("hist_restore_async", 1, gen_c11("async", 76, with_restore=True, hist_parallel=True))],
+              ("hist_restore_async", 1, gen_c11("async", 76, with_restore=True, hist_parallel=True)),
+              # regions resting in a FINAL child when the history-owning parallel parent is left
+              ("hist_parallel_final_sync", 2, gen_c11("sync", 77, hist_parallel=True, p_parallel=0.45, p_final=0.3, p_on_done=0.1)),
+              ("hist_parallel_final_async", 1, gen_c11("async", 78, hist_parallel=True, p_parallel=0.45, p_final=0.3, p_on_done=0.1,
+                                                       with_restore=True))],
     oracle=O.oracle_c11,
     stats=O.stats_c11,
     level="exploration",
@@ -803,6 +808,31 @@ def gen_c14(engine, mode):
                                   p_slow_act=0.08, p_async_act=(0.1 if asyncish else 0.0), events=3,
                                   p_stop_act=(0.06 if mode == "inside" else 0.0)))
         out = mg.build()
+        if mode == "inside" and rng.random() < 0.4:
+            # stop() called by an action of the very transition that goes on to enter a top-level final state
+            # (or by that final state's entry action): the status must stay `stopped`
+            root = out["machine"]
+            fins = [k for k, v in (root.get("states") or {}).items() if v.get("type") == "final"]
+            if not fins:
+                root["states"]["FIN"] = {"type": "final", "entry": [mg.act("en.m.FIN", [])]}
+                fins = ["FIN"]
+            fin = rng.choice(fins)
+            srcs = [(k, v) for k, v in root["states"].items() if v.get("type") not in ("final", "history")]
+            if srcs:
+                k, v = rng.choice(srcs)
+                ev = rng.choice(mg.events)
+                stopper = mg.act("stop_inside", [["stop"]])
+                where = rng.choice(("trans", "trans", "final_entry", "source_exit"))
+                tr = {"target": f"#m.{fin}", "actions": [mg.act("tr.TSTOPFIN", [])]}
+                if where == "trans":
+                    tr["actions"].insert(rng.randint(0, 1), stopper)
+                elif where == "final_entry":
+                    root["states"][fin].setdefault("entry", []).append(stopper)
+                else:
+                    v.setdefault("exit", []).append(stopper)
+                on = v.setdefault("on", {})
+                old = on.get(ev)
+                on[ev] = [tr] + (old if isinstance(old, list) else ([old] if old else []))
         ops = []
         t = 0
         started = False
@@ -845,9 +875,9 @@ def gen_c14(engine, mode):
 register(
     "C14",
     families=[("life_async_seq", 3, gen_c14("async", "seq")), ("life_async_race", 3, gen_c14("async", "race")),
-              ("life_async_inside", 1, gen_c14("async", "inside")),
+              ("life_async_inside", 2, gen_c14("async", "inside")),
               ("life_sync_seq", 3, gen_c14("sync", "seq")), ("life_sync_race", 2, gen_c14("sync", "race")),
-              ("life_sync_inside", 1, gen_c14("sync", "inside"))],
+              ("life_sync_inside", 2, gen_c14("sync", "inside"))],
     oracle=C14.oracle_c14,
     stats=C14.stats_c14,
     level="exploration",
